@@ -370,6 +370,21 @@ static void runAnamH(const AnamHCase& c, Ctx& ctx)
   }
   if (err != 0) { ctx.fail(pre + "fit-error", fmt("fit returned %d on %d active samples with %d distinct values", err, si.nact, si.ndistinct)); return; }
 
+  if (c.refit && !c.viaDb)
+  {
+    // a fit depends on its data only: the same data on a fresh object must give the same transform
+    AnamHermite fresh(c.nbpoly, c.flagBound != 0);
+    (void)fresh.fitFromArray(toVD(c.s.z), toVD(c.s.w));
+    VectorDouble p1 = anam.getPsiHns(), p2 = fresh.getPsiHns();
+    double sc = 0;
+    for (int k = 0; k < (int)p2.size(); k++) sc = std::max(sc, std::fabs(p2[k]));
+    for (int k = 0; k < (int)p2.size() && k < (int)p1.size(); k++)
+      if (!(std::fabs(p1[k] - p2[k]) <= 1e-12 * sc))
+      {
+        ctx.fail(pre + "differs-from-fresh-fit", fmt("Hermite coefficient %d after a second fit = %.17g, the same data on a fresh object give %.17g", k, p1[k], p2[k]));
+        return;
+      }
+  }
   const double pymin = anam.getPymin(), pymax = anam.getPymax(), pzmin = anam.getPzmin(), pzmax = anam.getPzmax();
   const double aymin = anam.getAymin(), aymax = anam.getAymax(), azmin = anam.getAzmin(), azmax = anam.getAzmax();
   const double b[8] = {pymin, pymax, pzmin, pzmax, aymin, aymax, azmin, azmax};
@@ -483,6 +498,7 @@ static void runAnamH(const AnamHCase& c, Ctx& ctx)
       double eta = -1;
       for (double e : {1e-6, 1e-5, 1e-4, 1e-3, 1e-2, 1e-1, 0.5})
       {
+        if (yp[k] - e < ylo || yp[k] + e > yhi) break; // neighbours outside the reported interval prove nothing
         if (f.fwd(yp[k] + e) - zq[k] > 2 * dzmax + rnd && zq[k] - f.fwd(yp[k] - e) > 2 * dzmax + rnd) { eta = e; break; }
       }
       if (eta < 0) { flat++; continue; }
@@ -567,4 +583,868 @@ static void runAnamDeg(const AnamDegCase& c, Ctx& ctx)
   if (std::fabs(anam.getMean() - c.v) > 1e-6 * (1 + std::fabs(c.v))) ctx.fail("anamH:constant:mean", fmt("constant data %g accepted, mean of the fitted transform = %.17g", c.v, anam.getMean()));
 }
 VERIF_SUB(anamh_degenerate, AnamDegCase, genAnamDeg, runAnamDeg);
+
+// =================================================================== (b) AnamEmpirical ======
+struct AnamECase
+{
+  Sample s;
+  int mode = 0; // 0 normal score (no dilution) 1 gaussian dilution 2 lognormal dilution
+  int ndisc = 100;
+  double sig = 0; // 0: default sigma2e, else sigma2e = sig * variance
+  std::vector<double> t;
+  template<class A> void io(A& a) { a("s", s)("mode", mode)("ndisc", ndisc)("sig", sig)("t", t); }
+};
+static AnamECase genAnamE()
+{
+  AnamECase c;
+  c.mode = G::pick({0, 0, 1, 2});
+  c.s = genSample(5, c.mode == 0 ? 2000 : 300, false, c.mode == 2);
+  c.s.w.clear(); // weights are not used by the empirical anamorphosis
+  c.s.wMode = 0;
+  c.ndisc = G::i(10, 200);
+  c.sig = G::pick({0., 0., 0.01, 0.1});
+  int np = G::i(8, 24);
+  for (int k = 0; k < np; k++) c.t.push_back(G::u(0., 1.));
+  return c;
+}
+static void runAnamE(const AnamECase& c, Ctx& ctx)
+{
+  const int n = (int)c.s.z.size();
+  SampleInfo si = sampleInfo(c.s.z, {}, {});
+  ctx.label(fmt("mode:%d", c.mode));
+  ctx.label(fmt("kind:%d", c.s.kind));
+  ctx.label(nClass(n));
+  if (si.nties) ctx.label("ties");
+  if (si.nna) ctx.label("na");
+  if (si.ndistinct < 2) { ctx.inconclusive("fewer-than-2-distinct-values"); return; }
+  // moments of the defined data (for sigma2e)
+  std::vector<double> a;
+  for (double v : c.s.z) if (!isNA(v)) a.push_back(v);
+  std::sort(a.begin(), a.end());
+  LD m = 0, m2 = 0;
+  for (double v : a) { m += v; m2 += (LD)v * v; }
+  m /= a.size(); m2 /= a.size();
+  double var = (double)(m2 - m * m);
+  if (c.mode != 0 && !(var > 1e-12 * (double)m2)) { ctx.inconclusive("variance-lost-in-rounding"); return; }
+  if (c.mode == 2 && !(a[0] > 0)) { ctx.inconclusive("lognormal-dilution-needs-positive-data"); return; }
+
+  AnamEmpirical anam(c.ndisc, c.sig > 0 ? c.sig * var : NA, c.mode != 0, c.mode != 2);
+  ctx.at("AnamEmpirical::fitFromArray");
+  int err;
+  try
+  {
+    err = anam.fitFromArray(toVD(c.s.z));
+  }
+  catch (const std::exception& e)
+  {
+    if (c.mode == 1 && a[0] <= 0) { ctx.fail("anamE:gaussian-dilution:nonpositive-data", std::string("Gaussian dilution on data with values <= 0 throws: ") + e.what()); return; }
+    throw;
+  }
+  if (err != 0) { ctx.fail("anamE:fit-error", fmt("fit returned %d (mode %d, %d defined values)", err, c.mode, (int)a.size())); return; }
+  const VectorDouble& Z = anam.getZDisc();
+  const VectorDouble& Y = anam.getYDisc();
+  const int nd = anam.getNDisc();
+  if ((int)Z.size() != nd || (int)Y.size() != nd) { ctx.fail("anamE:table-size", fmt("nDisc=%d but tables have %d / %d entries", nd, (int)Z.size(), (int)Y.size())); return; }
+  if (nd < 2) { ctx.inconclusive("table-with-less-than-2-points"); return; }
+  if (c.mode == 1)
+  {
+    // Gaussian dilution as documented (AnamEmpirical.hpp): every valid datum is replaced by a Gaussian of
+    // variance sigma2e; the table is the Gaussian quantile of the diluted cumulative frequency
+    const double s2 = c.sig > 0 ? c.sig * var : var / (2. * (double)a.size());
+    const LD sg = sqrtl((LD)s2);
+    for (int k = 0; k < nd; k++)
+    {
+      LD pr = 0;
+      for (double v : a) pr += pnormL(((LD)Z[k] - v) / sg);
+      pr /= (LD)a.size();
+      if (!(pr > 1e-4L && pr < 1 - 1e-4L) || std::fabs(Y[k]) > 3.7) continue;
+      LD q = qnormL(pr);
+      double tol = tolInvCdf(q) + 1.5e-7 / (double)dnormL(q);
+      if (!(std::fabs(Y[k] - (double)q) <= tol))
+      {
+        ctx.fail(a[0] <= 0 ? "anamE:gaussian-dilution:nonpositive-data" : "anamE:gaussian-dilution:cdf",
+                 fmt("Y[%d]=%.10g at Z=%.10g, diluted frequency of the %d data = %.10Lg whose Gaussian quantile is %.10Lg (tol %g); smallest datum %g", k, Y[k], Z[k], (int)a.size(), pr, q, tol, a[0]));
+        return;
+      }
+    }
+  }
+  const double ytol = (c.mode == 0) ? 0. : 2e-7; // resolution of the bisection in law_invcdf_gaussian
+  double zs = 0, ys = 0;
+  bool jitter = false;
+  for (int k = 0; k < nd; k++)
+  {
+    if (isNA(Z[k]) || isNA(Y[k]) || !std::isfinite(Z[k]) || !std::isfinite(Y[k])) { ctx.fail("anamE:table-undefined", fmt("table entry %d is (%g,%g)", k, Z[k], Y[k])); return; }
+    zs = std::max(zs, std::fabs(Z[k]));
+    ys = std::max(ys, std::fabs(Y[k]));
+    if (k == 0) continue;
+    if (Z[k] < Z[k - 1]) { ctx.fail("anamE:ztable-not-sorted", fmt("Z[%d]=%.17g < Z[%d]=%.17g", k, Z[k], k - 1, Z[k - 1])); return; }
+    if (Y[k] < Y[k - 1] - ytol) { ctx.fail("anamE:ytable-not-monotone", fmt("Y[%d]=%.17g < Y[%d]=%.17g (mode %d)", k, Y[k], k - 1, Y[k - 1], c.mode)); return; }
+    if (Y[k] < Y[k - 1]) jitter = true;
+  }
+  if (jitter) { ctx.label("ytable-jitter"); ctx.inconclusive("quantile-table-not-sorted-within-invcdf-resolution"); return; }
+  // reported interval = extent of the tables
+  if (anam.getPzmin() != Z[0] || anam.getPzmax() != Z[nd - 1] || anam.getPymin() != Y[0] || anam.getPymax() != Y[nd - 1])
+  {
+    ctx.fail("anamE:bounds", fmt("reported pz[%g,%g] py[%g,%g], tables span z[%g,%g] y[%g,%g]", anam.getPzmin(), anam.getPzmax(), anam.getPymin(), anam.getPymax(), Z[0], Z[nd - 1], Y[0], Y[nd - 1]));
+    return;
+  }
+  if (c.mode == 0)
+  {
+    // normal-score table: sorted defined data against Gaussian quantiles k/(n+1)
+    if (nd != (int)a.size()) { ctx.fail("anamE:nscore-table-size", fmt("%d defined data, table of %d", (int)a.size(), nd)); return; }
+    for (int k = 0; k < nd; k++)
+    {
+      if (Z[k] != a[(size_t)k]) { ctx.fail("anamE:nscore-z", fmt("Z[%d]=%.17g, %d-th smallest datum = %.17g", k, Z[k], k, a[(size_t)k])); return; }
+      LD q = qnormL((LD)(k + 1) / (LD)(nd + 1));
+      if (!(std::fabs(Y[k] - (double)q) <= tolInvCdf(q))) { ctx.fail("anamE:nscore-y", fmt("Y[%d]=%.17g, Gaussian quantile of %d/%d = %.17g", k, Y[k], k + 1, nd + 1, (double)q)); return; }
+    }
+  }
+  AnamFns f{&anam};
+  const double C = 64 * EPS;
+  int checked = 0;
+  // monotone on sorted probes over the whole reported interval
+  {
+    std::vector<double> ts = c.t;
+    std::sort(ts.begin(), ts.end());
+    VectorDouble zp, yp;
+    for (double t : ts) { zp.push_back(Z[0] + t * (Z[nd - 1] - Z[0])); yp.push_back(Y[0] + t * (Y[nd - 1] - Y[0])); }
+    ctx.at("AnamContinuous::rawToGaussianVector");
+    VectorDouble yq = anam.rawToGaussianVector(zp);
+    ctx.at("AnamContinuous::gaussianToRawVector");
+    VectorDouble zq = anam.gaussianToRawVector(yp);
+    for (int k = 1; k < (int)zp.size(); k++)
+    {
+      if (yq[k] < yq[k - 1] - C * ys) { ctx.fail("anamE:z2y-not-monotone", fmt("y(%.17g)=%.17g > y(%.17g)=%.17g", zp[k - 1], yq[k - 1], zp[k], yq[k])); return; }
+      if (zq[k] < zq[k - 1] - C * zs) { ctx.fail("anamE:y2z-not-monotone", fmt("z(%.17g)=%.17g > z(%.17g)=%.17g", yp[k - 1], zq[k - 1], yp[k], zq[k])); return; }
+    }
+  }
+  // round trips inside the segments where the tabulated function is strictly increasing (where an
+  // inverse is defined), and at the nodes
+  for (double t : c.t)
+  {
+    int k = std::min(nd - 2, (int)(t * (nd - 1)));
+    double fr = t * (nd - 1) - k;
+    fr = 0.05 + 0.9 * std::min(1., std::max(0., fr));
+    double za = Z[k], zb = Z[k + 1], ya = Y[k], yb = Y[k + 1];
+    // node: z = Z[k] -> y -> z (where the tabulated quantile is strictly increasing around the node)
+    if ((k == 0 || Y[k - 1] < Y[k]) && Y[k] < Y[k + 1])
+    {
+      double y = f.inv(za), z = f.fwd(y);
+      checked++;
+      if (!(std::fabs(z - za) <= C * zs)) { ctx.fail("anamE:node-roundtrip", fmt("z=Z[%d]=%.17g -> y=%.17g -> z=%.17g", k, za, y, z)); return; }
+    }
+    if (!(zb > za) || !(yb > ya)) { ctx.label("flat-segment"); continue; }
+    double sl = (yb - ya) / (zb - za);
+    {
+      double z = za + fr * (zb - za);
+      if (z > za && z < zb)
+      {
+        double y = f.inv(z), z2 = f.fwd(y);
+        double tol = C * (zs + ys / sl);
+        checked++;
+        if (!(y >= ya - C * ys && y <= yb + C * ys)) { ctx.fail("anamE:z2y-outside-segment", fmt("z=%.17g in (Z[%d],Z[%d]) -> y=%.17g outside [%.17g,%.17g]", z, k, k + 1, y, ya, yb)); return; }
+        if (!(std::fabs(z2 - z) <= tol)) { ctx.fail("anamE:z-roundtrip", fmt("z=%.17g -> y=%.17g -> z=%.17g tol=%g (segment %d: z[%.17g,%.17g] y[%.17g,%.17g])", z, y, z2, tol, k, za, zb, ya, yb)); return; }
+      }
+    }
+    {
+      double y = ya + fr * (yb - ya);
+      if (y > ya && y < yb)
+      {
+        double z = f.fwd(y), y2 = f.inv(z);
+        double tol = C * (ys + zs * sl);
+        checked++;
+        if (!(std::fabs(y2 - y) <= tol)) { ctx.fail("anamE:y-roundtrip", fmt("y=%.17g -> z=%.17g -> y=%.17g tol=%g (segment %d: z[%.17g,%.17g] y[%.17g,%.17g])", y, z, y2, tol, k, za, zb, ya, yb)); return; }
+      }
+    }
+  }
+  ctx.nontrivial(checked > 0 && (si.nties > 0 || si.nna > 0 || c.mode != 0));
+  ctx.sig = Hash().add(c.mode).add(c.s.kind).add(c.ndisc).add(n).add(c.s.naMode).addq(c.s.z[0]).h;
+}
+VERIF_SUB(aname, AnamECase, genAnamE, runAnamE);
+
+// =================================================================== (c) PCA / MAF ==========
+struct PcaCase
+{
+  int nvar = 1, n = 5;
+  int mode = 0;   // 0 PCA, 1 MAF on a distance interval, 2 MAF on a lag of a VarioParam direction
+  std::vector<double> x, y; // coordinates
+  std::vector<double> z;    // n*nvar, sample-major (NA allowed)
+  std::vector<int> sel;     // empty = no selection
+  double hmin = 0, hmax = 1;
+  int ndir = 1, idir0 = 0, ilag0 = 1, npas = 4;
+  double dpas = 1, angref = 0;
+  template<class A> void io(A& a)
+  {
+    a("nvar", nvar)("n", n)("mode", mode)("x", x)("y", y)("z", z)("sel", sel)("hmin", hmin)("hmax", hmax)
+     ("ndir", ndir)("idir0", idir0)("ilag0", ilag0)("npas", npas)("dpas", dpas)("angref", angref);
+  }
+};
+static PcaCase genPca()
+{
+  PcaCase c;
+  c.nvar = G::i(1, 5);
+  c.mode = G::pick({0, 0, 1, 1, 2});
+  int nmax = c.mode == 0 ? G::pick({30, 120, 400}) : G::pick({30, 120});
+  c.n = G::sz(c.nvar + 4, nmax);
+  const int nv = c.nvar, n = c.n;
+  const int side = (int)std::ceil(std::sqrt((double)n));
+  const double cell = G::pick({1., 1., 25.});
+  c.x.resize((size_t)n); c.y.resize((size_t)n);
+  for (int i = 0; i < n; i++)
+  {
+    c.x[(size_t)i] = cell * ((i % side) + G::u(0.15, 0.85));
+    c.y[(size_t)i] = cell * ((i / side) + G::u(0.15, 0.85));
+  }
+  // latent components: smooth spatial part + noise, different for each component
+  std::vector<double> om(nv), ph(nv), sm(nv);
+  for (int k = 0; k < nv; k++) { om[k] = G::u(0.3, 3.) / (cell * side) * 6.28; ph[k] = G::u(0., 6.28); sm[k] = G::pick({0., 0.5, 0.9}); }
+  // mixing matrix: lower triangular, bounded condition number
+  std::vector<double> A((size_t)nv * nv, 0.);
+  for (int i = 0; i < nv; i++)
+    for (int j = 0; j <= i; j++) A[(size_t)i * nv + j] = (i == j) ? G::i(3, 20) / 10. : G::i(-15, 15) / 10.;
+  const double scale = G::pick({1., 1., 1e-2, 1e3});
+  std::vector<double> mean(nv);
+  for (int k = 0; k < nv; k++) mean[k] = G::pick({0., 0., 10., -50., 100.});
+  c.z.resize((size_t)n * nv);
+  std::vector<double> lat(nv);
+  for (int i = 0; i < n; i++)
+  {
+    for (int k = 0; k < nv; k++)
+    {
+      double g = (double)qnormL((LD)G::i(1, (1 << 20) - 1) / 1048576.0L);
+      double s = std::sin(om[k] * c.x[(size_t)i] + ph[k]) * std::cos(om[k] * 0.7 * c.y[(size_t)i] - ph[k]) * 1.6;
+      lat[k] = sm[k] * s + std::sqrt(1 - sm[k] * sm[k]) * g;
+    }
+    for (int v = 0; v < nv; v++)
+    {
+      double t = mean[v];
+      for (int k = 0; k <= v; k++) t += A[(size_t)v * nv + k] * lat[k];
+      c.z[(size_t)i * nv + v] = scale * t;
+    }
+  }
+  const int keep = nv + 4; // the first samples stay complete and selected
+  if (G::pct(35))
+    for (int i = keep; i < n; i++)
+      for (int v = 0; v < nv; v++)
+        if (G::pct(8)) c.z[(size_t)i * nv + v] = NA;
+  if (G::pct(35))
+  {
+    c.sel.assign((size_t)n, 1);
+    for (int i = keep; i < n; i++) c.sel[(size_t)i] = G::pct(75) ? 1 : 0;
+  }
+  c.hmin = cell * G::u(0., 1.5);
+  c.hmax = c.hmin + cell * G::u(0.5, 3.);
+  c.ndir = G::pick({1, 1, 2});
+  c.idir0 = G::i(0, c.ndir - 1);
+  c.ilag0 = G::i(1, 3);
+  c.npas = c.ilag0 + G::i(1, 3);
+  c.dpas = cell * G::u(0.8, 2.);
+  c.angref = (double)G::i(0, 17) * 10.;
+  return c;
+}
+
+// symmetric eigenvalues by cyclic Jacobi (oracle side, tiny matrices)
+static std::vector<LD> jacobiEig(std::vector<LD> a, int n)
+{
+  for (int sweep = 0; sweep < 60; sweep++)
+  {
+    LD off = 0;
+    for (int p = 0; p < n; p++) for (int q = p + 1; q < n; q++) off += a[(size_t)p * n + q] * a[(size_t)p * n + q];
+    if (off < 1e-60L) break;
+    for (int p = 0; p < n; p++)
+      for (int q = p + 1; q < n; q++)
+      {
+        LD apq = a[(size_t)p * n + q];
+        if (apq == 0) continue;
+        LD th = (a[(size_t)q * n + q] - a[(size_t)p * n + p]) / (2 * apq);
+        LD t = (th >= 0 ? 1 : -1) / (fabsl(th) + sqrtl(th * th + 1));
+        LD cs = 1 / sqrtl(t * t + 1), sn = t * cs;
+        for (int k = 0; k < n; k++)
+        {
+          LD akp = a[(size_t)k * n + p], akq = a[(size_t)k * n + q];
+          a[(size_t)k * n + p] = cs * akp - sn * akq;
+          a[(size_t)k * n + q] = sn * akp + cs * akq;
+        }
+        for (int k = 0; k < n; k++)
+        {
+          LD apk = a[(size_t)p * n + k], aqk = a[(size_t)q * n + k];
+          a[(size_t)p * n + k] = cs * apk - sn * aqk;
+          a[(size_t)q * n + k] = sn * apk + cs * aqk;
+        }
+      }
+  }
+  std::vector<LD> e((size_t)n);
+  for (int i = 0; i < n; i++) e[(size_t)i] = a[(size_t)i * n + i];
+  return e;
+}
+
+static void runPca(const PcaCase& c, Ctx& ctx)
+{
+  const int nv = c.nvar, n = c.n;
+  defineDefaultSpace(ESpaceType::RN, 2);
+  ctx.label(fmt("mode:%d", c.mode));
+  ctx.label(fmt("nvar:%d", nv));
+  ctx.label(nClass(n));
+  std::unique_ptr<Db> db(Db::create());
+  db->addColumns(toVD(c.x), "x1", ELoc::X, 0);
+  db->addColumns(toVD(c.y), "x2", ELoc::X, 1);
+  for (int v = 0; v < nv; v++)
+  {
+    VectorDouble col(n);
+    for (int i = 0; i < n; i++) col[i] = c.z[(size_t)i * nv + v];
+    db->addColumns(col, fmt("z%d", v + 1), ELoc::Z, v);
+  }
+  if (!c.sel.empty()) { db->addColumns(toVDi(c.sel), "sel", ELoc::SEL, 0); ctx.label("selection"); }
+  // isotopic active samples
+  std::vector<int> iso;
+  bool anyNA = false;
+  for (int i = 0; i < n; i++)
+  {
+    bool ok = c.sel.empty() || c.sel[(size_t)i];
+    for (int v = 0; v < nv; v++)
+      if (isNA(c.z[(size_t)i * nv + v])) { ok = false; anyNA = true; }
+    if (ok) iso.push_back(i);
+  }
+  if (anyNA) ctx.label("na");
+  const int ni = (int)iso.size();
+  if (ni < nv + 2) { ctx.inconclusive("too-few-isotopic-samples"); return; }
+  // oracle: mean, covariance (n-1), conditioning
+  std::vector<LD> mean((size_t)nv, 0), cov((size_t)nv * nv, 0);
+  double zmax = 0;
+  for (int i : iso) for (int v = 0; v < nv; v++) { mean[v] += c.z[(size_t)i * nv + v]; zmax = std::max(zmax, std::fabs(c.z[(size_t)i * nv + v])); }
+  for (int v = 0; v < nv; v++) mean[v] /= ni;
+  for (int i : iso)
+    for (int a = 0; a < nv; a++)
+      for (int b = 0; b < nv; b++) cov[(size_t)a * nv + b] += (c.z[(size_t)i * nv + a] - mean[a]) * (c.z[(size_t)i * nv + b] - mean[b]);
+  for (auto& v : cov) v /= (ni - 1);
+  std::vector<LD> ev = jacobiEig(cov, nv);
+  LD lmin = *std::min_element(ev.begin(), ev.end()), lmax = *std::max_element(ev.begin(), ev.end());
+  if (!(lmin > 0) || lmax / lmin > 1e10L) { ctx.inconclusive("covariance-ill-conditioned"); return; }
+  const double smin = (double)sqrtl(lmin);
+
+  PCA pca;
+  VarioParam* vp = nullptr;
+  std::unique_ptr<VarioParam> vpHold;
+  int err;
+  if (c.mode == 0) { ctx.at("PCA::pca_compute"); err = pca.pca_compute(db.get()); }
+  else if (c.mode == 1) { ctx.at("PCA::maf_compute_interval"); err = pca.maf_compute_interval(db.get(), c.hmin, c.hmax); }
+  else
+  {
+    vp = (c.ndir == 1) ? VarioParam::createOmniDirection(c.npas, c.dpas) : VarioParam::createMultiple(c.ndir, c.npas, c.dpas, 0.5, c.angref);
+    vpHold.reset(vp);
+    if (vp == nullptr) { ctx.inconclusive("varioparam-not-built"); return; }
+    ctx.at("PCA::maf_compute");
+    err = pca.maf_compute(db.get(), *vp, c.ilag0, c.idir0);
+  }
+  if (err != 0) { ctx.fail("pca:compute-error", fmt("computation returned %d (mode %d, %d isotopic samples, %d variables)", err, c.mode, ni, nv)); return; }
+
+  // the pair set of the MAF lag (modes 1, 2), boundaries excluded with a margin
+  std::vector<std::pair<int, int>> pairs;
+  if (c.mode != 0)
+  {
+    double psmin = 0, cx = 1, cy = 0, h0 = 0, lag = 0;
+    if (c.mode == 2)
+    {
+      const DirParam& dp = vp->getDirParam(c.idir0);
+      double tol = dp.getTolAngle();
+      psmin = (tol >= 90.) ? -1. : std::fabs(std::cos(tol * M_PI / 180.));
+      cx = dp.getCodirs()[0]; cy = dp.getCodirs()[1];
+      lag = dp.getDPas(); h0 = c.ilag0 * lag;
+    }
+    for (int a = 0; a < ni; a++)
+      for (int b = 0; b < a; b++)
+      {
+        int i = iso[(size_t)a], j = iso[(size_t)b];
+        double dx = c.x[(size_t)i] - c.x[(size_t)j], dy = c.y[(size_t)i] - c.y[(size_t)j];
+        double d = std::sqrt(dx * dx + dy * dy);
+        auto nearTo = [&](double u, double v) { return std::fabs(u - v) <= 1e-9 * (std::fabs(u) + std::fabs(v) + 1e-300); };
+        if (c.mode == 1)
+        {
+          if (nearTo(d, c.hmin) || nearTo(d, c.hmax)) { ctx.inconclusive("pair-on-lag-boundary"); return; }
+          if (d < c.hmin || d > c.hmax) continue;
+        }
+        else
+        {
+          if (psmin >= 0)
+          {
+            double ps = std::fabs(dx * cx + dy * cy) / std::sqrt((dx * dx + dy * dy) * (cx * cx + cy * cy));
+            if (std::fabs(ps - psmin) < 1e-9) { ctx.inconclusive("pair-on-angle-boundary"); return; }
+            if (ps < psmin) continue;
+          }
+          if (nearTo(d, h0 - lag / 2) || nearTo(d, h0 + lag / 2)) { ctx.inconclusive("pair-on-lag-boundary"); return; }
+          if (d < h0 - lag / 2 || d > h0 + lag / 2) continue;
+        }
+        pairs.push_back({i, j});
+      }
+    ctx.label(pairs.empty() ? "pairs:0" : ((int)pairs.size() < nv ? "pairs:<nvar" : "pairs:many"));
+  }
+
+  ctx.at("PCA::dbZ2F");
+  if (pca.dbZ2F(db.get()) != 0) { ctx.fail("pca:z2f-error", "dbZ2F returned an error"); return; }
+  if (db->getLocNumber(ELoc::Z) != nv) { ctx.fail("pca:z2f-locators", fmt("%d Z-located columns after dbZ2F, expected the %d factors", db->getLocNumber(ELoc::Z), nv)); return; }
+  std::vector<VectorDouble> F((size_t)nv);
+  for (int k = 0; k < nv; k++) F[(size_t)k] = db->getColumnByLocator(ELoc::Z, k, false, false);
+  // factor moments over the isotopic samples
+  const double tolM = 64 * EPS * ni * (1. + zmax / smin);
+  std::vector<LD> fm((size_t)nv, 0);
+  for (int k = 0; k < nv; k++)
+  {
+    if ((int)F[(size_t)k].size() != n) { ctx.fail("pca:factor-size", "factor column has another length"); return; }
+    for (int i : iso)
+    {
+      double f = F[(size_t)k][i];
+      if (isNA(f) || !std::isfinite(f)) { ctx.fail("pca:factor-undefined", fmt("factor %d undefined at isotopic active sample %d", k + 1, i)); return; }
+      fm[(size_t)k] += f;
+    }
+    fm[(size_t)k] /= ni;
+    if (!(fabsl(fm[(size_t)k]) <= tolM)) { ctx.fail("pca:factor-mean", fmt("mean of factor %d = %Lg (tol %g, mode %d)", k + 1, fm[(size_t)k], tolM, c.mode)); return; }
+  }
+  const double tolC = tolM * 2 * std::sqrt((double)ni) + 1e3 * EPS * (double)(lmax / lmin);
+  for (int a = 0; a < nv; a++)
+    for (int b = 0; b <= a; b++)
+    {
+      LD s = 0;
+      for (int i : iso) s += ((LD)F[(size_t)a][i] - fm[(size_t)a]) * ((LD)F[(size_t)b][i] - fm[(size_t)b]);
+      s /= (ni - 1);
+      LD want = (a == b) ? 1 : 0;
+      if (!(fabsl(s - want) <= tolC))
+      {
+        ctx.fail(a == b ? "pca:factor-variance" : "pca:factor-covariance", fmt("cov(F%d,F%d) = %.12Lg, expected %Lg (tol %g, mode %d, cond %Lg)", a + 1, b + 1, s, want, tolC, c.mode, lmax / lmin));
+        return;
+      }
+    }
+  if (c.mode != 0 && !pairs.empty())
+  {
+    // MAF: the factors are also uncorrelated at the chosen lag (variogram matrix of the factors is diagonal)
+    std::vector<LD> g((size_t)nv * nv, 0);
+    for (auto& pr : pairs)
+      for (int a = 0; a < nv; a++)
+        for (int b = 0; b <= a; b++)
+          g[(size_t)a * nv + b] += ((LD)F[(size_t)a][pr.first] - F[(size_t)a][pr.second]) * ((LD)F[(size_t)b][pr.first] - F[(size_t)b][pr.second]) / 2;
+    LD gmax = 1;
+    for (int a = 0; a < nv; a++) { g[(size_t)a * nv + a] /= pairs.size(); gmax = std::max(gmax, g[(size_t)a * nv + a]); }
+    const double tolG = (double)gmax * (1e3 * EPS * (double)(lmax / lmin) + 64 * EPS * ni * (1. + zmax / smin) * 4 * std::sqrt((double)ni));
+    for (int a = 0; a < nv; a++)
+      for (int b = 0; b < a; b++)
+      {
+        LD v = g[(size_t)a * nv + b] / pairs.size();
+        if (!(fabsl(v) <= tolG)) { ctx.fail("pca:maf-lag-covariance", fmt("cross-variogram of factors %d,%d at the lag = %.12Lg over %d pairs (tol %g, mode %d)", a + 1, b + 1, v, (int)pairs.size(), tolG, c.mode)); return; }
+      }
+  }
+  // back-transform
+  ctx.at("PCA::dbF2Z");
+  if (pca.dbF2Z(db.get()) != 0) { ctx.fail("pca:f2z-error", "dbF2Z returned an error"); return; }
+  if (db->getLocNumber(ELoc::Z) != nv) { ctx.fail("pca:f2z-locators", "number of Z-located columns after dbF2Z"); return; }
+  const double tolZ = 1e-9 * zmax;
+  for (int v = 0; v < nv; v++)
+  {
+    VectorDouble zb = db->getColumnByLocator(ELoc::Z, v, false, false);
+    for (int i : iso)
+    {
+      double z0 = c.z[(size_t)i * nv + v];
+      if (!(std::fabs(zb[i] - z0) <= tolZ)) { ctx.fail("pca:roundtrip", fmt("variable %d sample %d: %.17g -> factors -> %.17g (tol %g, mode %d, nvar %d)", v + 1, i, z0, zb[i], tolZ, c.mode, nv)); return; }
+    }
+  }
+  ctx.nontrivial(nv >= 3 || anyNA || !c.sel.empty());
+  ctx.sig = Hash().add(c.mode).add(nv).add(n).add(ni).add((int)pairs.size()).addq(c.z[0]).h;
+}
+VERIF_SUB(pca, PcaCase, genPca, runPca);
+
+// =================================================================== (d) VH::normalScore ====
+struct NScoreCase
+{
+  Sample s;
+  template<class A> void io(A& a) { a("s", s); }
+};
+static NScoreCase genNScore()
+{
+  NScoreCase c;
+  c.s = genSample(2, 2000, false, false);
+  // weights of the normal score: non-negative, zeros allowed (wMode 2), never undefined
+  if (c.s.wMode == 1 && G::pct(40))
+  {
+    c.s.wMode = 2;
+    for (size_t i = 3; i < c.s.w.size(); i++)
+      if (G::pct(15)) c.s.w[i] = 0;
+  }
+  return c;
+}
+static void runNScore(const NScoreCase& c, Ctx& ctx)
+{
+  const int n = (int)c.s.z.size();
+  const bool hasW = !c.s.w.empty();
+  SampleInfo si = sampleInfo(c.s.z, {}, {});
+  ctx.label(fmt("kind:%d", c.s.kind));
+  ctx.label(nClass(n));
+  ctx.label(hasW ? (c.s.wMode == 2 ? "weights:with-zero" : "weights:positive") : "weights:none");
+  if (si.nties) ctx.label("ties");
+  if (si.nna) ctx.label("na");
+  ctx.at("VH::normalScore");
+  VectorDouble sc = VH::normalScore(toVD(c.s.z), toVD(c.s.w));
+  if ((int)sc.size() != n) { ctx.fail("nscore:size", fmt("%d scores for %d data", (int)sc.size(), n)); return; }
+  // active samples sorted by value
+  std::vector<int> act;
+  LD wtot = 0;
+  for (int i = 0; i < n; i++)
+  {
+    if (isNA(c.s.z[(size_t)i]))
+    {
+      if (!isNA(sc[i])) { ctx.fail("nscore:na-gets-score", fmt("undefined datum %d receives the score %g", i, sc[i])); return; }
+      continue;
+    }
+    if (isNA(sc[i]) || !std::isfinite(sc[i])) { ctx.fail("nscore:score-undefined", fmt("defined datum %d receives an undefined score", i)); return; }
+    act.push_back(i);
+    wtot += hasW ? c.s.w[(size_t)i] : 1.;
+  }
+  const int na = (int)act.size();
+  if (na == 0 || !(wtot > 0)) { ctx.inconclusive("no-active-weight"); return; }
+  std::stable_sort(act.begin(), act.end(), [&](int a, int b) { return c.s.z[(size_t)a] < c.s.z[(size_t)b]; });
+  const LD denom = wtot * (LD)(na + 1) / (LD)na;
+  auto quant = [&](LD cum, double& q, double& tol) {
+    LD p = cum / denom;
+    if (p <= 0) { q = -10; tol = 1e-12; return; }
+    LD x = qnormL(p);
+    q = (double)x;
+    tol = tolInvCdf(x);
+  };
+  // groups of tied values
+  LD cum = 0;
+  double prevTop = -1e300;
+  for (int a = 0; a < na;)
+  {
+    int b = a;
+    while (b + 1 < na && c.s.z[(size_t)act[(size_t)b + 1]] == c.s.z[(size_t)act[(size_t)a]]) b++;
+    LD cumBefore = cum;
+    std::vector<double> got;
+    std::vector<LD> wg;
+    for (int k = a; k <= b; k++) { got.push_back(sc[act[(size_t)k]]); wg.push_back(hasW ? (LD)c.s.w[(size_t)act[(size_t)k]] : 1.L); cum += wg.back(); }
+    std::sort(got.begin(), got.end());
+    double qTop, tTop, qLow, tLow;
+    quant(cum, qTop, tTop);
+    quant(cumBefore, qLow, tLow);
+    // (i) the largest score of the group is the Gaussian quantile of the cumulated frequency through the group
+    if (!(std::fabs(got.back() - qTop) <= tTop))
+    {
+      ctx.fail("nscore:quantile", fmt("value %.17g (group of %d, ranks %d..%d of %d): largest score %.10g, Gaussian quantile of the cumulated frequency %.10Lg is %.10g (tol %g)", c.s.z[(size_t)act[(size_t)a]], b - a + 1, a + 1, b + 1, na, got.back(), cum / denom, qTop, tTop));
+      return;
+    }
+    // (ii) every score of the group lies between the quantiles before and through the group
+    if (!(got.front() >= qLow - tLow - 2e-7)) { ctx.fail("nscore:tie-range", fmt("value %.17g: smallest score %.10g below the quantile %.10g reached before its group", c.s.z[(size_t)act[(size_t)a]], got.front(), qLow)); return; }
+    // (iii) monotone: larger data never get a smaller score (2e-7: resolution of the quantile bisection)
+    if (!(got.front() >= prevTop - 2e-7)) { ctx.fail("nscore:not-monotone", fmt("value %.17g gets the score %.10g, a smaller value got %.10g", c.s.z[(size_t)act[(size_t)a]], got.front(), prevTop)); return; }
+    // (iv) without weights the scores of a tie group are the consecutive quantiles (k)/(n+1)
+    if (!hasW)
+      for (int k = a; k <= b; k++)
+      {
+        double q, t;
+        quant((LD)(k + 1), q, t);
+        if (!(std::fabs(got[(size_t)(k - a)] - q) <= t)) { ctx.fail("nscore:tie-quantiles", fmt("tie group of value %.17g: %d-th score %.10g, quantile %d/%d = %.10g", c.s.z[(size_t)act[(size_t)a]], k - a + 1, got[(size_t)(k - a)], k + 1, na + 1, q)); return; }
+      }
+    prevTop = got.back();
+    a = b + 1;
+  }
+  ctx.nontrivial(si.nties > 0 || si.nna > 0 || hasW);
+  ctx.sig = Hash().add(c.s.kind).add(n).add(c.s.wMode).add(c.s.naMode).add(si.nties).addq(c.s.z[0]).h;
+}
+VERIF_SUB(nscore, NScoreCase, genNScore, runNScore);
+
+// =================================================================== (e) Rotation ===========
+struct RotCase
+{
+  int ndim = 2;
+  int mode = 0; // 0 setAngles, 1 setMatrixDirect, 2 setMatrixDirectVec
+  std::vector<double> ang;
+  std::vector<double> v; // nvec * ndim
+  template<class A> void io(A& a) { a("ndim", ndim)("mode", mode)("ang", ang)("v", v); }
+};
+static RotCase genRot()
+{
+  RotCase c;
+  c.ndim = G::pick({1, 2, 2, 3, 3, 3});
+  c.mode = G::i(0, 2);
+  int na = c.ndim == 3 ? 3 : 1;
+  for (int k = 0; k < na; k++)
+  {
+    int t = G::i(0, 9);
+    double a;
+    if (t == 0) a = 0;
+    else if (t == 1) a = G::pick({90., 180., 270., -90., 360., 45.});
+    else if (t == 2) a = G::u(-1e-6, 1e-6);
+    else if (t == 3) a = (double)G::i(-720, 720);
+    else a = G::u(-180., 180.);
+    c.ang.push_back(a);
+  }
+  int nvec = G::i(1, 4);
+  double sc = G::pick({1., 1., 1e-3, 1e4});
+  for (int k = 0; k < nvec * c.ndim; k++) c.v.push_back(sc * G::u(-10., 10.));
+  return c;
+}
+// rotation matrix of the documented convention (DESIGN §3): rows are the rotated axes; built by composing
+// elementary right-handed rotations about z, the new y, the new x
+static std::vector<double> refRot(int ndim, const std::vector<double>& ang)
+{
+  std::vector<double> m((size_t)ndim * ndim, 0.);
+  if (ndim == 1) { m[0] = 1; return m; }
+  auto cs = [](double deg, double& cth, double& sth) { double r = deg * M_PI / 180.; cth = std::cos(r); sth = std::sin(r); };
+  if (ndim == 2)
+  {
+    double ca, sa; cs(ang[0], ca, sa);
+    m = {ca, sa, -sa, ca};
+    return m;
+  }
+  double c0, s0, c1, s1, c2, s2;
+  cs(ang[0], c0, s0); cs(ang[1], c1, s1); cs(ang[2], c2, s2);
+  auto mul = [](const std::vector<double>& a, const std::vector<double>& b) {
+    std::vector<double> r(9, 0.);
+    for (int i = 0; i < 3; i++) for (int j = 0; j < 3; j++) for (int k = 0; k < 3; k++) r[(size_t)i * 3 + j] += a[(size_t)i * 3 + k] * b[(size_t)k * 3 + j];
+    return r;
+  };
+  // coordinates in the rotated frame: x' = Rx(g) Ry(b) Rz(a) x with passive elementary rotations
+  std::vector<double> Rz = {c0, s0, 0, -s0, c0, 0, 0, 0, 1};
+  std::vector<double> Ry = {c1, 0, -s1, 0, 1, 0, s1, 0, c1};
+  std::vector<double> Rx = {1, 0, 0, 0, c2, s2, 0, -s2, c2};
+  return mul(Rx, mul(Ry, Rz));
+}
+static void runRot(const RotCase& c, Ctx& ctx)
+{
+  const int nd = c.ndim;
+  ctx.label(fmt("ndim:%d", nd));
+  ctx.label(fmt("mode:%d", c.mode));
+  std::vector<double> M = refRot(nd, c.ang);
+  Rotation rot((unsigned)nd);
+  int err = 0;
+  if (c.mode == 0) { ctx.at("Rotation::setAngles"); err = rot.setAngles(toVD(c.ang)); }
+  else
+  {
+    MatrixSquareGeneral mm(nd);
+    for (int i = 0; i < nd; i++) for (int j = 0; j < nd; j++) mm.setValue(i, j, M[(size_t)i * nd + j]);
+    if (c.mode == 1) { ctx.at("Rotation::setMatrixDirect"); err = rot.setMatrixDirect(mm); }
+    else { ctx.at("Rotation::setMatrixDirectVec"); err = rot.setMatrixDirectVec(mm.getValues()); }
+  }
+  if (err != 0) { ctx.fail("rot:set-error", fmt("setting a valid rotation returned %d (mode %d)", err, c.mode)); return; }
+  const MatrixSquareGeneral& R = rot.getMatrixDirect();
+  const MatrixSquareGeneral& Ri = rot.getMatrixInverse();
+  if (R.getNRows() != nd || R.getNCols() != nd || Ri.getNRows() != nd) { ctx.fail("rot:shape", "matrix of another dimension"); return; }
+  const double tolO = 16 * EPS * nd;
+  // orthonormal, determinant +1, inverse = transpose
+  for (int i = 0; i < nd; i++)
+    for (int j = 0; j < nd; j++)
+    {
+      LD s = 0;
+      for (int k = 0; k < nd; k++) s += (LD)R.getValue(i, k) * R.getValue(j, k);
+      if (!(fabsl(s - (i == j ? 1 : 0)) <= tolO)) { ctx.fail("rot:not-orthonormal", fmt("(R Rt)[%d,%d] = %.17Lg", i, j, s)); return; }
+      if (Ri.getValue(i, j) != R.getValue(j, i)) { ctx.fail("rot:inverse-not-transpose", fmt("Rinv[%d,%d]=%.17g, R[%d,%d]=%.17g", i, j, Ri.getValue(i, j), j, i, R.getValue(j, i))); return; }
+    }
+  LD det = 1;
+  if (nd == 2) det = (LD)R.getValue(0, 0) * R.getValue(1, 1) - (LD)R.getValue(0, 1) * R.getValue(1, 0);
+  if (nd == 3)
+    det = (LD)R.getValue(0, 0) * ((LD)R.getValue(1, 1) * R.getValue(2, 2) - (LD)R.getValue(1, 2) * R.getValue(2, 1)) -
+          (LD)R.getValue(0, 1) * ((LD)R.getValue(1, 0) * R.getValue(2, 2) - (LD)R.getValue(1, 2) * R.getValue(2, 0)) +
+          (LD)R.getValue(0, 2) * ((LD)R.getValue(1, 0) * R.getValue(2, 1) - (LD)R.getValue(1, 1) * R.getValue(2, 0));
+  if (nd == 1) det = R.getValue(0, 0);
+  if (!(fabsl(det - 1) <= 4 * tolO)) { ctx.fail("rot:determinant", fmt("det = %.17Lg", det)); return; }
+  // the matrix is the rotation of the given angles (the library's storage convention may be R or Rt)
+  {
+    double d1 = 0, d2 = 0;
+    for (int i = 0; i < nd; i++)
+      for (int j = 0; j < nd; j++)
+      {
+        d1 = std::max(d1, std::fabs(R.getValue(i, j) - M[(size_t)i * nd + j]));
+        d2 = std::max(d2, std::fabs(R.getValue(i, j) - M[(size_t)j * nd + i]));
+      }
+    if (!(std::min(d1, d2) <= 64 * EPS)) { ctx.fail("rot:matrix-not-the-rotation", fmt("matrix differs from the rotation of the angles by %g (and by %g from its transpose), mode %d ndim %d", d1, d2, c.mode, nd)); return; }
+    ctx.label(d1 <= d2 ? "convention:rows-are-axes" : "convention:columns-are-axes");
+  }
+  // change of coordinates and back
+  const int nvec = (int)c.v.size() / nd;
+  // when the matrix is within 1e-10 of the identity the class treats it as no rotation at all
+  const double tolId = rot.isRotated() ? 0. : 2e-10 * nd;
+  for (int q = 0; q < nvec; q++)
+  {
+    VectorDouble v(nd), w(nd), u(nd);
+    double nrm = 0;
+    for (int k = 0; k < nd; k++) { v[k] = c.v[(size_t)q * nd + k]; nrm = std::max(nrm, std::fabs(v[k])); }
+    ctx.at("Rotation::rotateDirect");
+    rot.rotateDirect(v, w);
+    ctx.at("Rotation::rotateInverse");
+    rot.rotateInverse(w, u);
+    if ((int)w.size() != nd || (int)u.size() != nd) { ctx.fail("rot:vector-size", "rotated vector of another dimension"); return; }
+    for (int i = 0; i < nd; i++)
+    {
+      LD s = 0;
+      for (int k = 0; k < nd; k++) s += (LD)R.getValue(i, k) * v[k];
+      if (!(std::fabs(w[i] - (double)s) <= (16 * EPS * nd + tolId) * nrm)) { ctx.fail("rot:direct-not-matrix", fmt("rotateDirect(v)[%d]=%.17g, (R v)[%d]=%.17Lg", i, w[i], i, s)); return; }
+      if (!(std::fabs(u[i] - v[i]) <= 32 * EPS * nd * nrm)) { ctx.fail("rot:roundtrip", fmt("rotateInverse(rotateDirect(v))[%d]=%.17g, v[%d]=%.17g (ndim %d mode %d)", i, u[i], i, v[i], nd, c.mode)); return; }
+    }
+  }
+  // the angles reported describe the same rotation (away from the gimbal lock of the Euler angles)
+  if (nd >= 2)
+  {
+    const VectorDouble& an = rot.getAngles();
+    std::vector<double> a2;
+    for (int k = 0; k < (nd == 3 ? 3 : 1); k++) a2.push_back(an[k]);
+    double cb = 1;
+    if (nd == 3) cb = std::sqrt(R.getValue(0, 0) * R.getValue(0, 0) + R.getValue(0, 1) * R.getValue(0, 1));
+    if (nd == 3) cb = std::min(cb, std::sqrt(M[0] * M[0] + M[1] * M[1]));
+    if (cb > 1e-3)
+    {
+      // angles -> matrix is the library's own setAngles (the storage convention is the library's)
+      Rotation r2((unsigned)nd);
+      ctx.at("Rotation::setAngles(reported angles)");
+      r2.setAngles(toVD(a2));
+      double d = 0;
+      for (int i = 0; i < nd; i++)
+        for (int j = 0; j < nd; j++) d = std::max(d, std::fabs(r2.getMatrixDirect().getValue(i, j) - R.getValue(i, j)));
+      if (!(d <= 256 * EPS / (cb * cb))) { ctx.fail("rot:angles-not-the-rotation", fmt("angles reported (%g,%g,%g) give a matrix differing by %g from the rotation set (mode %d ndim %d)", a2[0], nd == 3 ? a2[1] : 0., nd == 3 ? a2[2] : 0., d, c.mode, nd)); return; }
+    }
+    else
+      ctx.label("gimbal-lock");
+  }
+  ctx.nontrivial(nd >= 2 && rot.isRotated());
+  Hash h;
+  h.add(nd).add(c.mode);
+  for (double a : c.ang) h.addq(a);
+  ctx.sig = h.h;
+}
+VERIF_SUB(rotation, RotCase, genRot, runRot);
+
+// =================================================================== (f) Hermite polynomials =
+struct HermCase
+{
+  int nbpoly = 5;
+  double r = 1;               // change-of-support coefficient of hermitePolynomials
+  std::vector<double> y;      // evaluation points
+  std::vector<int> ifacs;     // ranks for the selective variant
+  std::vector<double> phi;    // coefficients of an expansion (size nbpoly)
+  double s = 0;               // kriging st. dev. of hermiteCondExpElement
+  template<class A> void io(A& a) { a("nbpoly", nbpoly)("r", r)("y", y)("ifacs", ifacs)("phi", phi)("s", s); }
+};
+static HermCase genHerm()
+{
+  HermCase c;
+  c.nbpoly = G::pick({0, 1}) ? G::i(2, 61) : G::sz(2, 61);
+  c.r = G::pct(60) ? 1. : G::i(1, 20) / 20.;
+  int ny = G::i(1, 6);
+  for (int k = 0; k < ny; k++)
+  {
+    int t = G::i(0, 5);
+    c.y.push_back(t == 0 ? (double)G::i(-4, 4) : (t == 1 ? G::u(-10., 10.) : G::u(-4., 4.)));
+  }
+  int nf = G::i(1, 5);
+  for (int k = 0; k < nf; k++) c.ifacs.push_back(G::i(0, c.nbpoly - 1));
+  for (int k = 0; k < c.nbpoly; k++) c.phi.push_back(G::i(-100, 100) / 50. / (1. + (k > 0 ? std::pow((double)k, G::pick({0., 1., 2.})) : 0.)));
+  c.s = G::pick({0., 0., 1., 0.5, 0.3, 0.9});
+  return c;
+}
+static void runHerm(const HermCase& c, Ctx& ctx)
+{
+  const GHRule& gh = gaussHermite();
+  if (!gh.ok) { ctx.fail("harness:gauss-hermite-self-check", "the quadrature rule built by the harness is wrong"); return; }
+  const int nb = c.nbpoly;
+  ctx.label(nb >= 20 ? "order:>=20" : "order:<20");
+  ctx.label(c.r == 1. ? "r:1" : "r:<1");
+  ctx.label(c.s == 0. ? "s:0" : (c.s == 1. ? "s:1" : "s:(0,1)"));
+
+  // (1) values at the points: reference recurrence (monic, long double), closed forms for orders 0..5
+  for (double y : c.y)
+  {
+    ctx.at("hermitePolynomials");
+    VectorDouble h = hermitePolynomials(y, c.r, nb);
+    if ((int)h.size() != nb) { ctx.fail("herm:size", fmt("%d values for nbpoly=%d", (int)h.size(), nb)); return; }
+    std::vector<LD> ref = hermRef(y, nb);
+    LD run = 1, rk = 1;
+    for (int k = 0; k < nb; k++)
+    {
+      run = std::max(run, fabsl(ref[(size_t)k]));
+      // forward three-term recurrence: error grows at most linearly with the order, relative to the
+      // largest polynomial met so far
+      double tol = 64. * (k + 1) * EPS * (double)(run * rk);
+      if (!(std::fabs(h[k] - (double)(ref[(size_t)k] * rk)) <= tol)) { ctx.fail("herm:value", fmt("H_%d(%.17g) r=%g: %.17g, reference %.17Lg (tol %g)", k, y, c.r, h[k], ref[(size_t)k] * rk, tol)); return; }
+      rk *= c.r;
+    }
+    LD yy = y;
+    LD cf[6] = {1, -yy, (yy * yy - 1) / sqrtl(2.L), -(yy * yy * yy - 3 * yy) / sqrtl(6.L), (yy * yy * yy * yy - 6 * yy * yy + 3) / sqrtl(24.L),
+                -(yy * yy * yy * yy * yy - 10 * yy * yy * yy + 15 * yy) / sqrtl(120.L)};
+    rk = 1;
+    for (int k = 0; k < std::min(nb, 6); k++)
+    {
+      LD sc = 1 + powl(fabsl(yy), k);
+      if (!(fabsl((LD)h[k] - cf[k] * rk) <= 64 * EPS * sc)) { ctx.fail("herm:closed-form", fmt("H_%d(%.17g) r=%g: %.17g, closed form %.17Lg", k, y, c.r, h[k], cf[k] * rk)); return; }
+      rk *= c.r;
+    }
+    // selective variant
+    VectorInt ifs;
+    for (int q : c.ifacs) ifs.push_back(q);
+    ctx.at("hermitePolynomials(ifacs)");
+    VectorDouble hs = hermitePolynomials(y, c.r, ifs);
+    if (hs.size() != ifs.size()) { ctx.fail("herm:ifacs-size", "selective variant returns another number of values"); return; }
+    for (int q = 0; q < (int)ifs.size(); q++)
+      if (hs[q] != h[ifs[q]]) { ctx.fail("herm:ifacs-value", fmt("rank %d: %.17g, full vector has %.17g", ifs[q], hs[q], h[ifs[q]])); return; }
+  }
+
+  // (2) orthonormality for the Gaussian law by the 80-point Gauss-Hermite rule (exact to degree 159):
+  //     sum_k w_k H_i(x_k) H_j(x_k) = r^(i+j) delta_ij
+  {
+    const int N = (int)gh.x.size();
+    std::vector<VectorDouble> H((size_t)N);
+    ctx.at("hermitePolynomials(nodes)");
+    for (int k = 0; k < N; k++) H[(size_t)k] = hermitePolynomials((double)gh.x[(size_t)k], c.r, nb);
+    const double tol = 256. * nb * EPS;
+    // all pairs for small orders, a band and the last rows for large ones (cost)
+    for (int i = 0; i < nb; i++)
+      for (int j = 0; j <= i; j++)
+      {
+        if (nb > 24 && !(i - j <= 3 || i >= nb - 3 || j == 0)) continue;
+        LD s = 0;
+        for (int k = 0; k < N; k++) s += gh.w[(size_t)k] * (LD)H[(size_t)k][i] * (LD)H[(size_t)k][j];
+        LD want = (i == j) ? powl((LD)c.r, 2 * i) : 0;
+        if (!(fabsl(s - want) <= tol)) { ctx.fail("herm:orthonormality", fmt("integral of H_%d H_%d against the Gaussian density = %.17Lg, expected %.17Lg (r=%g, nbpoly=%d, tol %g)", i, j, s, want, c.r, nb, tol)); return; }
+      }
+  }
+
+  // (3) expansion: hermiteCondExpElement(y, 0, phi) = sum phi_n H_n(y); with a st. dev. s it is the
+  //     Gaussian average of the expansion around y: sum_k w_k Phi(y + s x_k)
+  for (double y : c.y)
+  {
+    VectorDouble phi = toVD(c.phi);
+    ctx.at("hermiteCondExpElement");
+    double got = hermiteCondExpElement(y, c.s, phi);
+    LD want = 0, sumabs = 0, errq = 0;
+    if (c.s == 0.)
+    {
+      std::vector<LD> ref = hermRef(y, nb);
+      LD run = 1;
+      for (int k = 0; k < nb; k++) { want += c.phi[(size_t)k] * ref[(size_t)k]; run = std::max(run, fabsl(ref[(size_t)k])); sumabs += fabsl(c.phi[(size_t)k]) * run * (k + 1); }
+    }
+    else
+    {
+      if (nb > 25) { ctx.label("condexp-skipped:order>25"); continue; } // the quadrature sum cancels too much
+      const LD r2 = sqrtl(std::max((LD)0, 1 - (LD)c.s * c.s));
+      for (size_t q = 0; q < gh.x.size(); q++)
+      {
+        std::vector<LD> ref = hermRef((LD)y + (LD)c.s * gh.x[q], nb);
+        LD v = 0, va = 0;
+        for (int k = 0; k < nb; k++) { v += c.phi[(size_t)k] * ref[(size_t)k]; va += fabsl(c.phi[(size_t)k] * ref[(size_t)k]); }
+        want += gh.w[q] * v;
+        errq += gh.w[q] * va;
+      }
+      // magnitude of the terms of the library's recurrence: r^n H_n(y/r)
+      LD run = 1;
+      std::vector<LD> ref = hermRef(r2 > 0 ? (LD)y / r2 : 0, nb);
+      LD rk = 1;
+      for (int k = 0; k < nb; k++)
+      {
+        LD term = (r2 > 0) ? rk * ref[(size_t)k] : powl(fabsl((LD)y), k) / sqrtl(tgammal((LD)k + 1));
+        run = std::max(run, fabsl(term));
+        sumabs += fabsl(c.phi[(size_t)k]) * run * (k + 1);
+        rk *= r2;
+      }
+    }
+    double tol = 64. * EPS * (double)sumabs + 64. * 1.1e-19 * (double)errq * 80;
+    if (!(std::fabs(got - (double)want) <= tol)) { ctx.fail(c.s == 0. ? "herm:expansion" : "herm:condexp", fmt("hermiteCondExpElement(%.17g, %g, phi[%d]) = %.17g, reference %.17Lg (tol %g)", y, c.s, nb, got, want, tol)); return; }
+  }
+  ctx.nontrivial(nb >= 20 || c.r != 1. || c.s != 0.);
+  ctx.sig = Hash().add(nb).addq(c.r).addq(c.s).addq(c.y[0]).add((int)c.y.size()).h;
+}
+VERIF_SUB(hermite, HermCase, genHerm, runHerm);
 VERIF_MAIN()
